@@ -282,8 +282,14 @@ func runSequence(seq int) {
 		if viewNext != "" && again < 0 {
 			k = 18
 		}
+		// once in every sequence: a restart, and right after it a wallet made from the seed of one that was loaded at the start
+		forcedRestart := step == 6 && len(ids) > 0
+		sameSeedNext := step == 7 && len(ids) > 0 && again < 0
+		if sameSeedNext {
+			k = 0
+		}
 		switch {
-		case k == 19 && len(ids) > 0 && rng.Intn(2) == 0:
+		case forcedRestart || (k == 19 && len(ids) > 0 && rng.Intn(2) == 0):
 			// the node restarts: from here on the freshly started service is the one that is used
 			r["op"], r["id"] = "restart", ""
 			s2, err := wallet.NewService(cfg)
@@ -299,7 +305,7 @@ func runSequence(seq int) {
 			si := seeds[rng.Intn(len(seeds))]
 			if again >= 0 {
 				si = seeds[again] // the create that was just refused, once more
-			} else if len(ids) > 0 && rng.Intn(4) == 0 {
+			} else if len(ids) > 0 && (sameSeedNext || rng.Intn(4) == 0) {
 				// a seed that some loaded wallet already has
 				want := seedOf[ids[rng.Intn(len(ids))]]
 				for i, x := range seeds {
